@@ -14,6 +14,9 @@
 //	ledger-changed             World.Ledger (raw records, decoded independently of helm) before != after
 //	client-only-request        client-only template: ANY request at all (discovery, read, storage, mutation)
 //
+// Two routes: the action API (this file) and the real cobra commands of pkg/cmd over HTTP
+// (cli.go), which covers what `helm template` / `helm upgrade --install` themselves decide.
+//
 // Positive controls: for every (ledger state, flag combination) the same operation is run with
 // dry-run OFF (spellings "", "none", "false" rotate) on an identically prepared world; the writes
 // seen there are counted. A dry case is "non-trivial" when its control wrote something. Post()
@@ -106,7 +109,7 @@ func init() {
 		ID:    "C06",
 		Level: "exploration",
 		Rule: "cells = op kind {install, upgrade, rollback, uninstall, client-only/validating template} x storage driver {memory, secrets, configmaps} x starting ledger {empty, [superseded,deployed], [deployed,failed], [failed], [superseded,uninstalled]}; per cell a generated 3-version chart (hooks for every event, crds/ in chart and subchart, NOTES.txt, subchart, lookup template, Secret) and a set of flag combinations (quick: greedy pairwise cover of the kind's boolean flags; thorough: full product over the flags read before the dry-run bail-out, the rest random), each run in every dry-run spelling; " +
-			"every combination also runs once with dry-run off on an identically prepared world (positive control). distinct_nontrivial counts distinct (kind, driver, state, spelling, flag combination) tuples whose positive control produced cluster mutations or storage writes.",
+			"every combination also runs once with dry-run off on an identically prepared world (positive control). A second route runs the real cobra commands of pkg/cmd (helm template with every --dry-run spelling {unset, bare, client, server, true, false, none} x {--validate, --is-upgrade, --include-crds, --create-namespace, --replace, --skip-crds, --no-hooks, --set, --output-dir, --kube-version}, and helm install/upgrade/upgrade --install/rollback/uninstall --dry-run as cross-check) over an HTTP connection to the simulator with the secrets driver; its positive control is helm install without dry-run. distinct_nontrivial counts distinct (kind, driver, state, spelling, flag combination) tuples whose positive control produced cluster mutations or storage writes.",
 		Assumptions: []string{
 			"the simulated API server sees every request helm sends (all clients are built from the RESTClientGetter / rest.Config whose transport is the simulator); the memory driver is wrapped by a recording driver",
 			"request classes: storage = Secret/ConfigMap named sh.helm.release.v1.* (or owner-label list), mutation = any other non-GET, read = other GET, discovery = /version,/api,/apis,/openapi",
@@ -208,6 +211,8 @@ func genCases(seed int64, tier string) []core.Case {
 			}
 		}
 	}
+	// the CLI route (pkg/cmd through a real HTTP connection to the simulator), see cli.go
+	out = append(out, genCLICases(rng, tier)...)
 	return out
 }
 
@@ -625,6 +630,9 @@ func run(c core.Case, verbose bool) core.Result {
 	env.Quiet()
 	var d caseData
 	core.U(c, &d)
+	if d.Kind == "cli" {
+		return runCLI(c, d, verbose)
+	}
 	var res core.Result
 	rng := rand.New(rand.NewSource(d.CSeed))
 	fam := gen.NewFamily(rng, gen.FamilyOpts{Versions: 3, MaxSlots: 7, Hooks: true, Keep: true})
@@ -782,6 +790,12 @@ func post(a *core.Agg) string {
 	}
 	if a.Stats["control_validating_template_requests"] == 0 {
 		miss = append(miss, "validating template (control for the client-only clause) sent no visible request")
+	}
+	if a.Stats["cli_control_ops_that_wrote"] == 0 {
+		miss = append(miss, "no `helm install` through the CLI route was seen writing (mutations and storage writes)")
+	}
+	if a.Stats["cli_dry_ops_template"] == 0 {
+		miss = append(miss, "no `helm template` executed through the CLI route")
 	}
 	if a.Stats["client_only_ops_strict"] == 0 {
 		miss = append(miss, "no client-only template executed")
